@@ -45,7 +45,7 @@ func init() {
 			Pat: "ret($rq, nil)",
 			Req0: "def($rq, &tokenExchangeRequest{exchangeSubjectTokenIDOrToken: $sid, exchangeSubject: $sub, subject: $sub, exchangeSubjectTokenType: $req.SubjectTokenType, exchangeActorTokenIDOrToken: $aid, exchangeActor: $act, exchangeActorTokenType: $req.ActorTokenType, scopes: $req.Scopes, requestedTokenType: $req.RequestedTokenType, clientID: $client.GetID()})",
 			Req: []string{"def($sid, op.GetTokenIDAndSubjectFromToken(_, _, $req.SubjectToken, $req.SubjectTokenType, false), 0)", "def($sub, op.GetTokenIDAndSubjectFromToken(_, _, $req.SubjectToken, $req.SubjectTokenType, false), 1)"}},
-		{ID: "E1.te.response.token-issued", Fn: "op.CreateTokenExchangeResponse", P: []string{"ctx", "ter", "client", "creator"}, Kind: "ret ok", Max: 1,
+		{ID: "E1.te.response.token-issued", Fn: "op.CreateTokenExchangeResponse", P: []string{"ctx", "ter", "client", "creator"}, Kind: "ret ok", Min: 1, Only: true, // every success return has this shape (one return, or one per case)
 			Pat: "ret(&TokenExchangeResponse{AccessToken: $tok, IssuedTokenType: $ter.GetRequestedTokenType(), RefreshToken: $rt, Scopes: $ter.GetScopes()}, nil)",
 			Why: "a success response always contains a freshly issued token of the declared kind (every case, including default)",
 			Req: []string{
@@ -59,7 +59,6 @@ func init() {
 			Pat: "$storage.CreateAccessToken(_, $tokenRequest)", Max: 1,
 			Why: "the access-token-only path is not taken for a token exchange that asked for a refresh token",
 			Req: []string{"noRT($tokenRequest, $client)"}},
-		{ID: "E1.te.response.only", Fn: "op.CreateTokenExchangeResponse", Kind: "ret ok", Max: 1},
 		{ID: "E7.te.issupported", Fn: "oidc.TokenType.IsSupported", P: []string{"t"}, Kind: "ret ok", Req: []string{"member($t, oidc.AllTokenTypes)"},
 			Why: "a token type is supported exactly when it is one of the four listed types"},
 		{ID: "E7.te.issupported.only", Fn: "oidc.TokenType.IsSupported", P: []string{"t"}, Kind: "ret fail", Req: []string{"notmember($t, oidc.AllTokenTypes)"}},
